@@ -2,6 +2,7 @@ package real
 
 import (
 	"runtime"
+	"sort"
 	"strings"
 	"time"
 )
@@ -58,19 +59,63 @@ func GtreeGoroutines() map[string]string {
 	return sigs
 }
 
-// SettledLeaks waits (up to maxWait) for the gtree goroutines that were not alive `before` to finish
-// and returns the signatures of those that did not.
-func SettledLeaks(before map[string]string, maxWait time.Duration) []string {
-	deadline := time.Now().Add(maxWait)
+// blockedState: a goroutine in this state makes no progress until another goroutine acts; anything else
+// (runnable, running, syscall, sleep, IO wait, preempted, ...) is a goroutine that is still on its way
+func blockedState(sig string) bool {
+	a := strings.LastIndex(sig, "[")
+	if a < 0 {
+		return false
+	}
+	st := strings.TrimSuffix(sig[a+1:], "]")
+	for _, p := range []string{"chan receive", "chan send", "select", "semacquire", "sync."} {
+		if strings.HasPrefix(st, p) {
+			return true
+		}
+	}
+	return false
+}
+
+// SettledLeaks waits for the gtree goroutines that were not alive `before` to finish and returns the
+// signatures of those that did not. The verdict does not depend on how fast the machine is: goroutines
+// count as left behind only when, `settle` after the call has returned, every one of them is blocked and the
+// same set was blocked at two looks `settle` apart (nobody is left who could release them). As long as one of
+// them is runnable, running, sleeping or in a system call the call is still winding down and the wait goes
+// on, up to `hard`; unsettled reports that even then they were still moving (no verdict).
+func SettledLeaks(before map[string]string, settle, hard time.Duration) (left []string, unsettled bool) {
+	start := time.Now()
+	var stableSince time.Time
+	prev := ""
 	for {
-		var left []string
+		left = left[:0]
+		var ids []string
+		allBlocked := true
 		for id, sig := range GtreeGoroutines() {
 			if _, old := before[id]; !old {
 				left = append(left, sig)
+				ids = append(ids, id+sig)
+				if !blockedState(sig) {
+					allBlocked = false
+				}
 			}
 		}
-		if len(left) == 0 || time.Now().After(deadline) {
-			return left
+		if len(left) == 0 {
+			return nil, false
+		}
+		now := time.Now()
+		if allBlocked {
+			sort.Strings(ids)
+			key := strings.Join(ids, "|")
+			if key != prev {
+				prev, stableSince = key, now
+			}
+			if now.Sub(start) >= settle && now.Sub(stableSince) >= settle {
+				return left, false
+			}
+		} else {
+			prev = ""
+		}
+		if now.Sub(start) > hard {
+			return left, !allBlocked
 		}
 		time.Sleep(2 * time.Millisecond)
 	}
